@@ -18,7 +18,7 @@ RULE = (
     "individual's own terms (B) / the permutation was not the identity (D)"
 )
 REQUIRED = {"rel_B_terms": 60, "rel_B_sampler": 60, "rel_B_personalize": 40, "rel_C_terms": 40, "rel_D_terms": 40, "totals": 40, "rel_E": 2,
-            "others_terms_really_changed": 30, "cohorts_with_unsorted_ids": 8}
+            "others_terms_really_changed": 30, "cohorts_with_unsorted_ids": 8, "other_individual_with_absurd_value": 5}
 ASSUMPTIONS = [
     "B relations: bit-identity (two executions of the same code on the same shapes); C/D: 1e-6 relative + 1e-6 x largest per-individual term "
     "absolute (float32 accumulation order may differ with layout; a term near 0 is a cancelling sum of O(10) summands)",
@@ -87,6 +87,14 @@ def run_shard(spec, ctx):
             vals = np.where(np.isnan(vals), np.nan, 1.0 - vals)
         else:
             vals = np.where(np.isnan(vals), np.nan, np.clip(vals + rng.normal(0, 0.15, size=vals.shape), 0.01, 0.99))
+        absurd = (not binary) and (i % 3 == 2)
+        if absurd:
+            # hostile modification: one OTHER individual gets an absurd but finite value (its squared residual overflows float32, so its own
+            # loss is non-finite) - the target must not notice
+            rows_o, cols_o = np.nonzero(~np.isnan(vals))
+            j = int(rng.integers(len(rows_o)))
+            vals[rows_o[j], cols_o[j]] = 1e20
+            ctx.count("other_individual_with_absurd_value")
         dfB.loc[other, feats] = vals
         # C: the target alone;  D: permuted individuals
         dfC = df[df["ID"] == target].copy()
